@@ -46,6 +46,11 @@ def valTag : PanicVal → String
   | .nilLike => "v-nil" | .custom => "v-custom" | .opSyscall _ => "v-op-syscall" | .opPlain _ => "v-op-plain"
   | .wrappedOp _ => "v-wrapped-op"
 
+/-- recovery.go `scopeToString`: the name logged in place of the pattern when the panic happened outside a route -/
+def specialScope (scope : String) : Option String :=
+  if scope == "noroute" then some "NoRouteHandler" else if scope == "nomethod" then some "NoMethodHandler"
+  else if scope == "options" then some "OptionsHandler" else if scope == "redirect" then some "RedirectHandler" else none
+
 def handleP (valS progS scope hdrS : String) : String :=
   match parseVal valS, parseProgress progS with
   | some v, some p =>
@@ -55,8 +60,8 @@ def handleP (valS progS scope hdrS : String) : String :=
     let out := if d.repanic then "repanic:same" else "returned"
     let status := if d.handled then 500 else if p.written then startedStatus progS else 0
     let red := sortStrings (d.redactedNames.map hexOfStr)
-    let route := if !d.logged then "-" else if scope == "noroute" then toHex (ascii "NoRouteHandler") else if scope == "routets" then toHex (ascii "/r/{id}/") else if scope == "routehost" then toHex (ascii "{sub}.com/r/{id}") else toHex (ascii "/r/{id}")
-    let params := if !d.logged || scope == "noroute" then "-"
+    let route := if !d.logged then "-" else if let some nm := specialScope scope then toHex (ascii nm) else if scope == "routets" then toHex (ascii "/r/{id}/") else if scope == "routehost" then toHex (ascii "{sub}.com/r/{id}") else toHex (ascii "/r/{id}")
+    let params := if !d.logged || (specialScope scope).isSome then "-"
       else if scope == "routehost" then toHex (ascii "sub") ++ "=" ++ toHex (ascii "example") ++ "+" ++ toHex (ascii "id") ++ "=" ++ toHex (ascii "42")
       else toHex (ascii "id") ++ "=" ++ toHex (ascii "42")
     let m := "out=" ++ out ++ ",logged=" ++ (if d.logged then "1" else "0") ++ ",status=" ++ toString status ++
@@ -79,7 +84,7 @@ def showTxn (o : TxnObs) : String := "out=" ++ o.out ++ "," ++ followOk o.routes
 
 def handleT (kind nopsS pos : String) : String :=
   let nops := nopsS.toNat!
-  let e : TxnEnd := if pos.startsWith "p" then .panics else if pos.startsWith "e" then .returnsError else .completes (nops > 0)
+  let e : TxnEnd := if pos.startsWith "p" then .panics else if pos.startsWith "e" then .returnsError else if pos.startsWith "g" then .goexits else .completes (nops > 0)
   let o : Option TxnObs :=
     match kind with
     | "updates" | "updates-t1" | "updates-t2" | "updates-t3" | "updates-s" | "updates-u" => some (managed true e)
@@ -94,6 +99,7 @@ def handleT (kind nopsS pos : String) : String :=
     let s : TxnObs := match e with
       | .panics => { out := "repanic:same", routesSame := true, lockFree := true }
       | .returnsError => { out := "error", routesSame := true, lockFree := true }
+      | .goexits => { out := "goexit", routesSame := true, lockFree := true }
       | .completes eff => { out := "returned", routesSame := !(kind.startsWith "updates" && eff), lockFree := true }
     "M=" ++ showTxn o ++ "\tS=" ++ showTxn s ++ "\tT=txn-" ++ kind ++ "," ++ "txn-" ++ (pos.take 1).toString ++ (if kind.startsWith "updates-t" then ",txn-truncate-first" else "")
 
